@@ -71,6 +71,66 @@ class Sym:
     def __repr__(self):
         return f"Sym<{self.kind}:{self.e}>"
 
+    # arithmetic for numeric kinds (lets numpy object arrays of Syms broadcast, sum, ...)
+    def _num(self, o):
+        if self.kind not in ("int", "real"):
+            raise TypeError("arithmetic on a non-numeric symbolic value")
+        if isinstance(o, Sym):
+            if o.kind not in ("int", "real"):
+                raise TypeError("arithmetic on a non-numeric symbolic value")
+            a, b = self.e, o.e
+            kind = "real" if "real" in (self.kind, o.kind) else "int"
+            if kind == "real":
+                a = z3.ToReal(a) if self.kind == "int" else a
+                b = z3.ToReal(b) if o.kind == "int" else b
+            return a, b, kind
+        if isinstance(o, bool):
+            o = int(o)
+        if isinstance(o, int):
+            return (self.e, z3.IntVal(o), "int") if self.kind == "int" else (self.e, z3.RealVal(o), "real")
+        if isinstance(o, float) or hasattr(o, "__float__"):
+            a = z3.ToReal(self.e) if self.kind == "int" else self.e
+            return a, z3.RealVal(repr(float(o))), "real"
+        return None
+
+    def _bin(self, o, f, swap=False, force_real=False):
+        r = self._num(o)
+        if r is None:
+            return NotImplemented
+        a, b, kind = r
+        if force_real and kind == "int":
+            a, b, kind = z3.ToReal(a), z3.ToReal(b), "real"
+        if swap:
+            a, b = b, a
+        return Sym(z3.simplify(f(a, b)), kind)
+
+    def __add__(self, o):
+        return self._bin(o, lambda a, b: a + b)
+
+    def __radd__(self, o):
+        return self._bin(o, lambda a, b: a + b, True)
+
+    def __sub__(self, o):
+        return self._bin(o, lambda a, b: a - b)
+
+    def __rsub__(self, o):
+        return self._bin(o, lambda a, b: a - b, True)
+
+    def __mul__(self, o):
+        return self._bin(o, lambda a, b: a * b)
+
+    def __rmul__(self, o):
+        return self._bin(o, lambda a, b: a * b, True)
+
+    def __truediv__(self, o):
+        return self._bin(o, lambda a, b: a / b, False, True)
+
+    def __rtruediv__(self, o):
+        return self._bin(o, lambda a, b: a / b, True, True)
+
+    def __neg__(self):
+        return Sym(-self.e, self.kind)
+
 
 class Obj:
     """Instance of an interpreted class."""
@@ -156,8 +216,9 @@ class Module:
                     base = ".".join(parts + ([n.module] if n.module else []))
                 for a in n.names:
                     self.imports[a.asname or a.name] = ("from", base, a.name)
-            elif isinstance(n, ast.Assign) and len(n.targets) == 1 and isinstance(n.targets[0], ast.Name):
-                self.globals[n.targets[0].id] = n.value
+            elif isinstance(n, ast.Assign) and all(isinstance(t, ast.Name) for t in n.targets):
+                for t in n.targets:
+                    self.globals[t.id] = n.value
         self._cls_cache = {}
 
     def get_class(self, name):
